@@ -22,7 +22,7 @@ ASSUMPTIONS = [
     'std::io::Write::write_all writes all bytes or fails (library contract)',
 ]
 MANIFEST = {'text': 'proof of: header layout agreement between writer and reader; every preserved field (reception time, ecu, timestamp and its presence, mcnt, endianness, extended header, payload) '
-                    'reaches a write sink; time split/join use one constant; convert -o writes exactly the messages it also selects for display, through to_write only. Added: readers never add to the 16-bit length field in u16 (largest messages re-read completely); the writer\'s htyp/length table over all 32 valuations of byte order and optional parts agrees with the readers. Added: the export file is opened empty (File::create / truncate(true) / create_new(true)). Added: all messages of an export go to one writer (no second write path that can overtake buffered messages). Added: the storage header seconds / microseconds written are exactly the quotient / remainder of the reception time (no clamp, mask or offset). Added: id bytes are read verbatim (DltChar4::from_buf); every successful return of DltMessage::to_write lies behind the standard-header encoder, or the bytes written on a path around it draw htyp, counter, timestamp, extended header fields and payload from the message.'}
+                    'reaches a write sink; time split/join use one constant; convert -o writes exactly the messages it also selects for display, through to_write only. Added: readers never add to the 16-bit length field in u16 (largest messages re-read completely); the writer\'s htyp/length table over all 32 valuations of byte order and optional parts agrees with the readers. Added: the export file is opened empty (File::create / truncate(true) / create_new(true)). Added: all messages of an export go to one writer (no second write path that can overtake buffered messages). Added: the storage header seconds / microseconds written are exactly the quotient / remainder of the reception time (no clamp, mask or offset). Added: id bytes are read verbatim (DltChar4::from_buf); every successful return of DltMessage::to_write lies behind the standard-header encoder, or the bytes written on a path around it draw htyp, counter, timestamp, extended header fields and payload from the message. Added: the id bytes the header encoders write pass through no id function of the crate other than plain accessors.'}
 
 WRITERS = {
     'adlt::dlt::DltStorageHeader::from_msg': ('agg', {'reception_time_us', 'ecu'}),
@@ -152,6 +152,8 @@ def run(F, chk):
     check_single_writer(F, W9)
     W11 = chk.rule('W11', 'DltMessage::to_write: every path to a successful return goes through the header encoders; a path that writes headers itself (fast path) draws htyp, counter, timestamp, extended header fields and payload from the message')
     check_single_encoder(F, W11)
+    W12 = chk.rule('W12', 'header encoders: the id bytes written (ECU, APID, CTID) derive from the header fields without passing through any id function of the crate other than a plain accessor (an id "normalised" on the way out - cut at the first NUL, padded, case-folded - is not the id that was read)')
+    check_writers_verbatim(F, W12)
     W10 = chk.rule('W10', 'id bytes: DltChar4::from_buf stores the four id bytes verbatim (what is read is what is written back)')
     hdrtab.check_id_bytes_verbatim(F, W10)
     W7 = chk.rule('W7', 'convert: the file reader feeding the export keeps a whole maximal message of look-ahead (low mark >= DLT_MAX_STORAGE_MSG_SIZE, capacity >= low mark + cache line)')
@@ -236,6 +238,51 @@ def check_endian_bit(F, W1):
     W1.ok(sample={'byte_order_bit': BIT, 'bit_setting_stores': [x[2] for x in setters], 'all_under': 'is_big_endian() == true', 'htyp_stores': n_stores})
 
 
+def check_writers_verbatim(F, W12):
+    """The readers keep every byte of ECU id, APID, CTID, counter, type byte.  The header encoders must hand exactly those bytes to
+    the sink: in the provenance of every write_all argument of the three header encoders there may be std conversions
+    (to_be_bytes, to_le_bytes, slicing) but no function of adlt itself except trivial accessors (`as_buf`)."""
+    import comparators
+    n = 0
+    for name in ('adlt::dlt::DltStorageHeader::to_write', 'adlt::dlt::DltExtendedHeader::to_write', 'adlt::dlt::DltStandardHeader::to_write'):
+        b = F.get(name)
+        if b is None:
+            W12.violation(('anchor-lost', name), 'encoder %s not found' % name)
+            continue
+        W12.fn(name)
+        cfg = CFG(b)
+        pr = Prov(cfg)
+        for blk in b.calls():
+            p = blk.term.callee.path
+            if not p.endswith('Write::write_all'):
+                continue
+            n += 1
+            W12.sites += 1
+            toks = set()
+            for a in blk.term.args[1:]:
+                toks |= pr.operand(a, at=blk.i)
+            bad = []
+            for t in toks:
+                if t[0] == 'call' and t[1].startswith(('adlt::', '<adlt::')):
+                    if t[1].endswith('::to_write') or t[1].endswith('DltChar4::as_buf'):
+                        continue
+                    gf = comparators.getter_fields(F, t[1])
+                    if gf:
+                        continue
+                    H = F.get(t[1])
+                    # layout helpers of the standard header (flag byte, sizes) are decided by H1 / W1 over all valuations; this rule
+                    # is about the ids: functions that take or return a DltChar4 / its bytes
+                    if H is None or not any('DltChar4' in ty for ty in list(H.arg_types()) + [H.ret_type()]) and not t[1].startswith('adlt::dlt::DltChar4::'):
+                        continue
+                    bad.append(t[1])
+            if bad:
+                W12.violation(('field-transformed-on-write', name, '+'.join(sorted(set(x.split('::')[-1] for x in bad)))), '%s writes at %s bytes that went through %s: what is exported is not the bytes that were read (ids with bytes behind a NUL, ..)' %
+                              (name, b.loc(blk.term.sp), ', '.join(sorted(set(bad)))), where=b.loc(blk.term.sp))
+            else:
+                W12.ok(sample={'encoder': name, 'write_at': b.loc(blk.term.sp), 'crate_functions_in_provenance': 'accessors only'})
+    W12.floor('write_all calls of the header encoders', n, 5)
+
+
 def check_single_encoder(F, W11):
     """The layout table (H1), the byte-order bit and the field flow (W1) are decided for DltStandardHeader::to_write.  They say
     nothing about bytes that DltMessage::to_write emits on a path around that encoder.  Must-pass-through: a block that
@@ -259,7 +306,8 @@ def check_single_encoder(F, W11):
                 oks.append(blk.i)
         if blk.term.k == 'call' and blk.term.dest.is_local and blk.term.dest.l == 0 and not blk.term.dest.p and blk.i not in enc and not blk.term.callee.path.endswith('::from_residual'):
             oks.append(blk.i)
-    W11.floor('successful-return definitions of DltMessage::to_write', len(oks), 1)
+    tail_enc = [x for x in enc if b.blocks[x].term.dest.is_local and b.blocks[x].term.dest.l == 0 and not b.blocks[x].term.dest.p]      # `DltStandardHeader::to_write(..)` as the tail expression
+    W11.floor('successful-return definitions of DltMessage::to_write', len(oks) + len(tail_enc), 1)
     around = cfg.reachable_from(0, avoid=enc)
     bypass = [x for x in oks if x in around]
     W11.sites += len(oks)
